@@ -75,6 +75,11 @@ CLAIMED = {
         "level": "Decides the MIR lowerer's frame bookkeeping structurally on all CFG paths of all lowering methods - the mechanism that makes generated drops balance; the clone/drop balance of a particular script's generated code is not decided.",
         "note": "Partial: clauses F1-F6.",
     },
+    "C14": {
+        "technique": "HIR arm checks for edge/node recording, must-pass-through gates and dominance in find_compilation_order, iterator-chain direction of the order through both lowerings, dominance chain define < finalize < initialise < insert in the code generator",
+        "level": "Decides that dependency edges are recorded at every resolution site, that the order is gated by the cycle/context checks and honoured by both lowerings, and that each constant is initialised once after finalisation; Tarjan's correctness and graph completeness for all programs are not decided.",
+        "note": "Partial: clauses D1-D3.",
+    },
 }
 _PENDING = "check under construction in this session; not yet claimed"
 NOT_APPLICABLE = {p: _PENDING for p in
